@@ -8,6 +8,8 @@ CONSTANTS
   ConstVal = 0
   MinVars = 0
   MaxK = 3
+  SteadyT = 6
+  SolveOK <- MC_SolveAny
   AsFound_SubstitutesVarWithIC = FALSE
 POSTCONDITION AllConsumed
 CHECK_DEADLOCK FALSE
